@@ -737,15 +737,27 @@ def _lt3(x, y):
     return 1
 
 
+def _term_key(x):
+    return ("z", core._z(x).get_id()) if isinstance(x, Sym) else ("c", repr(x))
+
+
 def argsort(a, axis=-1, kind=None, stable=None):
-    """A permutation that sorts `a` ascending. Default kind (quicksort) is unstable in numpy's
-    documentation: ties are ordered by a fresh nondeterministic choice. kind='stable'/'mergesort'
-    keeps input order among ties."""
+    """A permutation that sorts `a` ascending. The default kind (quicksort) is unstable in numpy:
+    ties are ordered by a nondeterministic choice - but, as in numpy, the result is a FUNCTION of
+    the input: the same array (same terms) gets the same permutation again within a path.
+    kind='stable'/'mergesort' keeps input order among ties."""
     if not isinstance(a, SArray):
         a = array(a)
     ctx = core.Ctx.cur
     is_stable = kind in ("stable", "mergesort") or stable
     concrete = builtins.all(not isinstance(x, Sym) for x in a.items)
+    nondet = not is_stable and not concrete and ARGSORT_NONDET[0]
+    memo = None
+    if nondet and ctx is not None:
+        memo = ctx.__dict__.setdefault("_argsort_memo", {})
+        key = tuple(_term_key(x) for x in a.items)
+        if key in memo:
+            return SArray(list(memo[key]), int64)
     order = []
     for i, x in enumerate(a.items):
         pos = len(order)
@@ -754,7 +766,7 @@ def argsort(a, axis=-1, kind=None, stable=None):
             c = _lt3(x, y)
             if c < 0:
                 pos -= 1
-            elif c == 0 and not is_stable and not concrete and ARGSORT_NONDET[0]:
+            elif c == 0 and nondet:
                 if bool(ctx.fresh_bool("tie")):
                     pos -= 1
                 else:
@@ -762,10 +774,12 @@ def argsort(a, axis=-1, kind=None, stable=None):
             else:
                 break
         order.insert(pos, i)
+    if memo is not None:
+        memo[key] = list(order)
     return SArray(order, int64)
 
 
-ARGSORT_NONDET = [False]  # default: ties keep input order (numpy's introsort is an insertion sort below 17 elements); True = any tie order
+ARGSORT_NONDET = [True]  # any order among ties: numpy's default sort is unstable even for 4 elements here (SIMD quicksort: np.argsort(-[0,0,1,1]) = [3,2,1,0])
 
 
 def sort(a, kind=None):
